@@ -337,6 +337,21 @@ func (r *Runner) contractCall(st *State, f *Frame, sp *FuncSpec, callee *ssa.Fun
 			r.oblige(st, "lockset", short+" requires lock", False, pos)
 		}
 	}
+	// call-site assertions of the calling function (before CALLEE [label] expr), in the caller's scope;
+	// arg0, arg1, ... name the arguments of this call
+	if f.spec != nil && r.quiet == 0 {
+		if cs := f.spec.Before[short]; len(cs) > 0 {
+			cenv := r.loopEnv(st, f)
+			for i := range args {
+				cenv.vars[fmt.Sprintf("arg%d", i)] = args[i]
+			}
+			for _, c := range cs {
+				g := cenv.EvalBool(c.E, st)
+				r.oblige(st, "before", short+"."+c.Label, g, pos)
+				r.beforeHit[short+"."+c.Label] = true
+			}
+		}
+	}
 	pre := r.shadow(st)
 	// havoc the frame
 	if sp.ModAll {
@@ -372,7 +387,17 @@ func (r *Runner) contractCall(st *State, f *Frame, sp *FuncSpec, callee *ssa.Fun
 	}
 	env.old = pre
 	for _, c := range sp.Ensures {
-		st.assume(env.EvalBool(c.E, st))
+		func() {
+			defer func() {
+				if e := recover(); e != nil {
+					if se, ok := e.(specErr); ok {
+						panic(specErr{fmt.Sprintf("%s (in ensures[%s] of %s at a call site)", se.msg, c.Label, sp.Key)})
+					}
+					panic(e)
+				}
+			}()
+			st.assume(env.EvalBool(c.E, st))
+		}()
 	}
 	for _, a := range sp.Acquires {
 		p := env.lockPlace(a)
@@ -527,6 +552,16 @@ func (r *Runner) finish(st *State, f *Frame, rv []Val, pos token.Pos) {
 	for _, c := range sp.Ensures {
 		g := env.EvalBool(c.E, st)
 		r.oblige(st, "post", c.Label, g, pos)
+	}
+	// cover clauses: the condition must be reachable at some return (an expect-sat obligation)
+	for _, c := range sp.Covers {
+		g := env.EvalBool(c.E, st)
+		if r.quiet == 0 {
+			o := &Oblig{Name: r.curName + "#cover[" + c.Label + "]", Kind: "cover", Fn: r.curName, Goal: Not(g),
+				PC: append([]Term{}, st.pc...), Expect: "sat", Trail: strings.Join(st.trail, ","), Pos: posOf(f.fn, pos), FnObj: r.curFn, Spec: r.curSpec}
+			o.Props = clauseProps(c.Label, sp.Props)
+			r.obligs = append(r.obligs, o)
+		}
 	}
 	// lock balance
 	r.lockBalance(st, f, env, pos)
